@@ -11,6 +11,14 @@ import (
 
 // Run starts the tracing process
 func (r *Runner) Run(c context.Context) runner.Result {
+	// without a filter nothing would ever trap: the child would not attach itself to the tracer and
+	// the tracer would wait for stops that never come
+	if len(r.Seccomp) == 0 {
+		return runner.Result{
+			Status: runner.StatusRunnerError,
+			Error:  "ptrace runner: a seccomp filter is required",
+		}
+	}
 	ch := &forkexec.Runner{
 		Args:     r.Args,
 		Env:      r.Env,
